@@ -360,7 +360,10 @@ def run(ctx):
             li3, lm3, _ = vlib.run_pair(ctx, impl_exe, model_exe, jc, "c11j")
             for line, ri, rm in zip(jc, li3, lm3):
                 kinds["json"] = kinds.get("json", 0) + 1
-                if ri.endswith("trunc=1"):
+                if " img=BAD" in ri:
+                    v.property_failure("jsonstore-crash-image", "a process killed inside a JsonFileStore flush leaves a store that reopens to neither "
+                                       "the last completed flush nor the flush in progress (" + ri.split(" img=")[1][:160] + ")", line, ri[:600])
+                elif ri.endswith("trunc=1"):
                     v.property_failure("jsonstore-truncates-in-place", "JsonFileStore re-opens its store file with a truncating mode: "
                                        "a crash before the data is written leaves an empty store", line, ri[:300])
                 elif ri.startswith("EXC") or ri.startswith("CRASH"):
